@@ -142,6 +142,63 @@ theorem coll_renameIn (s : Server) (d n n' d' m : String) :
       · simp [h1, h2, Server.coll]
   · simp [hd]
 
+/-! ### existence stays recorded in every lookup -/
+
+/-- existence is recorded in every collection store of the server -/
+def RecS (s : Server) : Prop := ∀ d n, (s.coll d n).recorded = true
+
+theorem recS_nil : RecS [] := by
+  intro d n; simp [Server.coll, Server.db, alGet?, recorded_empty]
+
+theorem recS_of_coll {s s' : Server} (h : RecS s) (e : ∀ d n, s'.coll d n = s.coll d n) :
+    RecS s' := fun d n => by rw [e]; exact h d n
+
+theorem recS_setColl {s : Server} (h : RecS s) (d n : String) {c : Coll}
+    (hc : c.recorded = true) : RecS (s.setColl d n c) := by
+  intro d' n'; rw [coll_setColl]; split
+  · exact hc
+  · exact h d' n'
+
+theorem recS_touchDb {s : Server} (h : RecS s) (d : String) : RecS (s.touchDb d) :=
+  recS_of_coll h (fun d' n => coll_touchDb s d d' n)
+
+theorem recS_dropAll {s : Server} (h : RecS s) (d : String) :
+    RecS (s.setDb d (dropAll (s.db d))) := by
+  intro d' n; rw [coll_dropAll]; split
+  · split
+    · exact recorded_empty
+    · exact h d n
+  · exact h d' n
+
+theorem recS_renameIn {s : Server} (h : RecS s) (d n n' : String) :
+    RecS (s.setDb d (renameIn (s.db d) n n')) := by
+  intro d' m; rw [coll_renameIn]; split
+  · split
+    · exact h d n
+    · split
+      · exact recorded_empty
+      · exact h d m
+  · exact h d' m
+
+theorem recS_renameStep {sv : Server} (h : RecS sv) (d n n' : String) (dt : Bool) :
+    RecS (Catalog.renameStep sv d n n' dt).1 := by
+  have r1 : RecS (sv.setColl d n (sv.coll d n)) := recS_setColl h d n (h d n)
+  have r2 : RecS ((sv.setColl d n (sv.coll d n)).setColl d n'
+      ((sv.setColl d n (sv.coll d n)).coll d n')) := recS_setColl r1 d n' (r1 d n')
+  have r3 := recS_setColl r2 d n' recorded_empty
+  simp only [Catalog.renameStep]
+  split
+  · exact h
+  split
+  · exact h
+  split
+  · exact r1
+  · split
+    · split
+      · exact recS_renameIn r3 d n n'
+      · exact r2
+    · exact recS_renameIn r2 d n n'
+
 /-! ### listings of the model -/
 
 theorem mem_createdColls {db : DbStore} (h : WFdb db) (n : String) :
